@@ -764,6 +764,60 @@ def run(rep, ctx):
             c = [x for x in ncalls(f, "narrow_result_bounds")]
             t = norm(render(c[0])) if c else ""
             b1.check(len(c) == 1 and cv(call_args(c[0])[0]) == 0 and "max(-lb,ub)" in t, "Abs-bounds", short_loc(f.loc), "|x| on a zero-crossing domain: [0, max(-lb, ub)]", t[:100])
+    # ---- Q1: quotient bounds evaluated on sample boxes ----------------------------------------------------------------
+    q1 = rep.rule("C06.Q1", "RANGE", "x / y with finite bounds and a denominator that does not change sign: the result bounds contain all four corner quotients "
+                  "(evaluated on sample boxes of every sign pattern)", floor=1)
+    from ..cfg import MiniInt as _MIq
+    dv = [f for f in over if "DivConstraintId" in f.full or (f.params and "DivConstraint" in ((f.params[0].get("t") or "") + (f.params[0].get("ct") or "")))]
+    if not dv:
+        raise AnalysisBroken("C06.Q1: PreprocessConstraint(DivConstraint) not found")
+    f = dv[0]
+    badq = []
+    BOXES = [((1.0, 4.0), (2.0, 4.0)), ((-4.0, -1.0), (2.0, 4.0)), ((1.0, 4.0), (-4.0, -2.0)), ((-4.0, -1.0), (-4.0, -2.0)), ((-3.0, 5.0), (0.5, 2.0)),
+             ((-3.0, 5.0), (-2.0, -0.5)), ((0.0, 0.0), (1.0, 3.0)), ((2.0, 2.0), (-8.0, -0.25)), ((-6.0, -6.0), (3.0, 3.0))]
+    for (l1_, u1_), (l2_, u2_) in BOXES:
+        rec_, box = [], {}
+        LB_, UB_ = {0: l1_, 1: l2_}, {0: u1_, 1: u2_}
+
+        def atom(t_, n_, env_):
+            k_ = n_["k"]
+            if k_ in ("CXXMemberCallExpr", "CallExpr"):
+                cn_ = (n_.get("callee") or "").split("::")[-1]
+                if cn_ == "narrow_result_bounds":
+                    rec_.append(tuple(box["mi"].expr(a_, env_, 0) for a_ in call_args(n_)))
+                    return 0
+                if cn_ in ("lb", "ub") and len(call_args(n_)) == 1:
+                    return (LB_ if cn_ == "lb" else UB_)[int(box["mi"].expr(call_args(n_)[0], env_, 0))]
+                if cn_ in ("PracticallyMinusInf", "MinusInfty"):
+                    return -1e20
+                if cn_ in ("PracticallyInf", "Infty"):
+                    return 1e20
+                if "numeric_limits" in (n_.get("callee") or "") and cn_ in ("max", "min", "lowest") and not call_args(n_):
+                    return {"max": 1.7976931348623157e308, "min": 2.2250738585072014e-308, "lowest": -1.7976931348623157e308}[cn_]
+            if k_ == "CXXOperatorCallExpr" and n_.get("op") == "[]" and render(call_args(n_)[0]).replace(" ", "").endswith("GetArguments()"):
+                return int(box["mi"].expr(call_args(n_)[1], env_, 0))
+            if k_ == "MemberExpr" and n_.get("name") in ("first", "second") and kids(n_) and strip(kids(n_)[0])["k"] == "DeclRefExpr":
+                vd_ = [v for v in f.walk() if v["k"] == "VarDecl" and v.get("declId") == strip(kids(n_)[0]).get("declId") and kids(v)]
+                mm_ = [c for v in vd_ for c in walk(kids(v)[0]) if c["k"] == "CallExpr" and (c.get("callee") or "").split("::")[-1] == "minmax"]
+                il_ = [x for c in mm_ for x in walk(c) if x["k"] == "InitListExpr"]
+                if il_:
+                    vals_ = [box["mi"].expr(e_, env_, 0) for e_ in kids(il_[0])]
+                    return min(vals_) if n_["name"] == "first" else max(vals_)
+            return None
+        mi = _MIq(F, atom)
+        box["mi"] = mi
+        try:
+            mi.call(f, [("obj", None, None), ("obj", None, None)])
+        except AnalysisBroken as e_:
+            if "without a return" not in str(e_):
+                raise AnalysisBroken("C06.Q1: PreprocessConstraint(Div): %s" % e_)
+        corners = [l1_ / l2_, l1_ / u2_, u1_ / l2_, u1_ / u2_]
+        for lo_, hi_ in rec_:
+            if lo_ > min(corners) + 1e-12 or hi_ < max(corners) - 1e-12:
+                badq.append("x in [%g, %g], y in [%g, %g]: result narrowed to [%g, %g], the quotient ranges over [%g, %g]" % (l1_, u1_, l2_, u2_, lo_, hi_, min(corners), max(corners)))
+    q1.check(not badq, "div-corners", short_loc(f.loc), "9 sample boxes: the narrowed result range contains every corner quotient",
+             "%s - a value the quotient takes is cut off from the result variable" % "; ".join(badq[:2]))
+
     # ---- D1: bounds pushed down from a result to its arguments ---------------------------------------------
     d1 = rep.rule("C06.D1", "TABLE", "bounds handed down from a result to an argument variable hold for every value the argument can take: "
                   "not: [1-ub, 1-lb]; and: [lb, 1]; or: [0, ub]; logical arguments [0, 1]; everything else unbounded", floor=12)
